@@ -3,7 +3,7 @@
   written at the level of properties.jsonl.  It never looks at the model's state: its bookkeeping is
   what a reader of the history knows (the parameters each downtime was created with, the last observed
   trigger time, whether it still exists, how many DowntimeStart/End requests it has caused so far, the
-  results the checkable has received, and when the 5 s start timer is next due).
+  results the checkable has received, and whether the start timer was among the timers fired by a pump).
 -/
 import IcingaModel.C05.Model
 
@@ -31,12 +31,11 @@ structure SpecSt where
   state : Nat               -- state of the last accepted result
   since : Int               -- when the state last changed (start of the monitoring process if never)
   dts : List SDt
-  startNext : Int
   paused : Bool             -- the checkable is paused: notification requests are skipped
   deriving Repr, DecidableEq
 
 def specInit (k : Kind) : SpecSt :=
-  { kind := k, checked := false, state := 0, since := 990, dts := [], startNext := 1000, paused := false }
+  { kind := k, checked := false, state := 0, since := 990, dts := [], paused := false }
 
 /-- The checkable has a problem the reader knows of. -/
 def SpecSt.problem (sp : SpecSt) : Bool := sp.checked && !isOK sp.kind sp.state
@@ -128,7 +127,6 @@ def specNext (sp : SpecSt) (op : Op) (o : Obs) : SpecSt :=
     if o.rc == 1 then
       { sp with checked := true, state := s, since := if stateChangeSpec sp s then te else sp.since, dts := dts }
     else { sp with dts := dts }
-  | .pump now => { sp with dts := dts, startNext := if sp.startNext ≤ now then now + 5 else sp.startNext }
   | .setPaused b _ => { sp with dts := dts, paused := b }
   | _ => { sp with dts := dts }
 
@@ -150,7 +148,7 @@ def existenceOK (op : Op) (o : Obs) (old pre : List SDt) : Bool :=
      (o.rc == 0 || ids.contains p.id)
    | .result _ _ _ => old.all (fun d => !d.alive || ids.contains d.id)
    | .setPaused _ _ => old.all (fun d => !d.alive || ids.contains d.id)
-   | .pump _ => true
+   | .pump _ _ => true
    | .remove id _ _ =>
      old.all (fun d => !d.alive || (ids.contains d.id == !(o.rc == 1 && d.id == id))) &&
      (o.rc == 0) == !(old.any (fun d => d.id == id && d.alive)))
@@ -168,9 +166,10 @@ def postDts (sp : SpecSt) (op : Op) (o : Obs) : List SDt := (preDts sp op o).map
 
 def gone (o : Obs) (d : SDt) : Bool := d.alive && (obsTrig o d.id).isNone
 
-def isPump : Op → Bool | .pump _ => true | _ => false
+def isPump : Op → Bool | .pump _ _ => true | _ => false
 
-def timerFired (sp : SpecSt) (op : Op) : Bool := isPump op && decide (sp.startNext ≤ op.now)
+/-- The start timer was among the timers that fired (an oracle input on the operation). -/
+def timerFired (op : Op) : Bool := match op with | .pump _ f => f | _ => false
 
 def isAddOf (op : Op) (o : Obs) (i : Nat) : Bool :=
   match op with | .add p _ => o.rc == 1 && p.id == i | _ => false
@@ -225,7 +224,7 @@ def chkStarted (sp : SpecSt) (op : Op) (o : Obs) : Bool :=
     been created (that it then has requested DowntimeStart is the previous clause). -/
 def chkFixedStarted (sp : SpecSt) (op : Op) (o : Obs) : Bool :=
   (postDts sp op o).all (fun d =>
-    !(d.alive && d.fixed && (timerFired sp op || isAddOf op o d.id) && d.inEffect op.now) || d.trig != 0)
+    !(d.alive && d.fixed && (timerFired op || isAddOf op o d.id) && d.inEffect op.now) || d.trig != 0)
 
 /-- One DowntimeEnd, exactly for a downtime that took effect and now ends or is removed. -/
 def chkEndOnce (sp : SpecSt) (op : Op) (o : Obs) : Bool :=
